@@ -5,7 +5,7 @@ SPEC = {
     "props": "theories/Wire/Props_C03.v",
     "harness": [
         {"bin": "h_wire_codec", "n": {"quick": 240, "thorough": 5000},
-         "known_bits": {16: "C03-noncanonical-enum-tag", 32: "C03-dirty-buffer"}},
+         "known_bits": {16: "C03-noncanonical-enum-tag", 32: "C03-dirty-buffer", 64: "C03-decoder-accepts-unencodable-path-index"}},
     ],
     "rule": "two thirds packet models (every address kind incl. service and unknown 4/8/12/16-byte types, empty / one-hop / standard paths with 1..63 hops per segment and totals up to 79 / unsupported paths, raw / UDP / all ten SCMP kinds, payload sizes 0,1,..,65000 and 65526..65537, 2^17, flow id / traffic class extremes; every third model 'hostile': unrepresentable ids, aliasing tags, oversize fields) through wire_valid / required_size / try_encode_to_vec / try_encode into a 0xff-filled buffer / decode / ChecksumDigest at an odd address; one third byte strings (encoder outputs as is, reserved-bit flips, trailing byte, truncation, wrong PayloadLen, L4 and header bit flips, random address nibbles, random bytes, wrong packet kind) through the decoder and back through the encoder; a case is non-trivial when the encoder resp. decoder accepts; distinct by full case text",
     "assumptions": ["little-endian target (the byte order of ChecksumDigest::add_slice's 16-bit loads is written out for x86-64/aarch64)",
